@@ -27,10 +27,13 @@ pub enum Probe {
     LdAbsBig,
     /// `ldindb r5, 0xfff0` with r5 = 0x14
     LdIndBig,
+    /// two consecutive indirect loads whose index register is r0, the register they write:
+    /// r0 = 1; r0 = pkt[r0 + 2]; r0 = pkt[r0 + 4]
+    LdIndChain,
 }
 
 fn probes() -> Vec<Probe> {
-    let mut v = vec![Probe::R1, Probe::DataStart, Probe::DataEnd, Probe::Len, Probe::LdAbs0, Probe::Stack, Probe::LdAbsLast, Probe::LdAbsBig, Probe::LdIndBig];
+    let mut v = vec![Probe::R1, Probe::DataStart, Probe::DataEnd, Probe::Len, Probe::LdAbs0, Probe::Stack, Probe::LdAbsLast, Probe::LdAbsBig, Probe::LdIndBig, Probe::LdIndChain];
     for k in 0..ctx_alphabet().len() as u8 {
         v.push(Probe::LdAbsAfter(k));
         v.push(Probe::LdIndAfter(k));
@@ -80,6 +83,9 @@ fn ctx_alphabet() -> Vec<(&'static str, Vec<I>)> {
         ("stxdw [r10-512],r2", vec![i(0x7b, 10, 2, -512, 0)]),
         ("stxdw [r10-256],r3", vec![i(0x7b, 10, 3, -256, 0)]),
         ("stdw [r10-504],-1", vec![i(0x7a, 10, 0, -504, -1)]),
+        // packet loads before the packet load
+        ("ldabsb 1", vec![i(0x30, 0, 0, 0, 1)]),
+        ("ldindb r4,0", vec![i(0x50, 0, 4, 0, 0)]),
     ]
 }
 
@@ -138,6 +144,11 @@ fn probe_prog(p: Probe, a: usize, b: usize) -> Vec<I> {
             v.push(isa::mov64i(5, 0x14));
             v.push(I::new(0x50, 0, 5, 0, 0xfff0));
         }
+        Probe::LdIndChain => {
+            v.push(isa::mov64i(0, 1));
+            v.push(I::new(0x50, 0, 0, 0, 2));
+            v.push(I::new(0x50, 0, 0, 0, 4));
+        }
         Probe::Stack => {
             v.push(I::new(0x72, 10, 0, -1, 0x5a));
             v.push(I::new(0x72, 10, 0, -512, 0x6b));
@@ -168,6 +179,7 @@ fn applicable(kind: VmKind, p: Probe, pk: &Pkt) -> bool {
         Probe::LdAbs0 => !matches!(kind, VmKind::NoData) && pk.len > 0,
         Probe::LdAbsLast | Probe::LdAbsAfter(_) | Probe::LdIndAfter(_) | Probe::LdAbsAfter2(..) => !matches!(kind, VmKind::NoData) && pk.len > 6,
         Probe::LdAbsBig | Probe::LdIndBig => !matches!(kind, VmKind::NoData) && pk.len > 0x10004,
+        Probe::LdIndChain => !matches!(kind, VmKind::NoData) && pk.len > 300,
         Probe::Stack => true,
     }
 }
@@ -175,7 +187,7 @@ fn applicable(kind: VmKind, p: Probe, pk: &Pkt) -> bool {
 /// A packet load beyond the packet is an out-of-bounds access: compiled code may trap or (JIT:
 /// no checks) fault. Such executions are outside this property and are not run on compilers.
 fn skip_exec(kind: VmKind, eng: Eng, p: Probe, pk: &Pkt) -> bool {
-    eng != Eng::Interp && matches!(p, Probe::LdAbs0 | Probe::LdAbsLast | Probe::LdAbsAfter(_) | Probe::LdIndAfter(_) | Probe::LdAbsAfter2(..) | Probe::LdAbsBig | Probe::LdIndBig) && !applicable(kind, p, pk)
+    eng != Eng::Interp && matches!(p, Probe::LdAbs0 | Probe::LdAbsLast | Probe::LdAbsAfter(_) | Probe::LdIndAfter(_) | Probe::LdAbsAfter2(..) | Probe::LdAbsBig | Probe::LdIndBig | Probe::LdIndChain) && !applicable(kind, p, pk)
 }
 
 fn expected(kind: VmKind, p: Probe, pk: &Pkt, bufs: &[Buf; 3], mb: &Buf) -> u64 {
@@ -199,6 +211,7 @@ fn expected(kind: VmKind, p: Probe, pk: &Pkt, bufs: &[Buf; 3], mb: &Buf) -> u64 
         Probe::LdAbs0 => bufs[pk.buf].bytes()[0] as u64,
         Probe::LdAbsLast | Probe::LdAbsAfter(_) | Probe::LdIndAfter(_) | Probe::LdAbsAfter2(..) => bufs[pk.buf].bytes()[6] as u64,
         Probe::LdAbsBig | Probe::LdIndBig => bufs[pk.buf].bytes()[0x10004] as u64,
+        Probe::LdIndChain => bufs[pk.buf].bytes()[bufs[pk.buf].bytes()[3] as usize + 4] as u64,
         Probe::Stack => 0x5a6b,
     }
 }
@@ -217,7 +230,9 @@ fn kinds() -> Vec<VmKind> {
 
 /// One group: a VM kind x engine x probe; all packet triples; for the fixed VM also a
 /// set_program to a second offset pair in the middle of each sequence.
-fn group(s: &mut Sink, kind: VmKind, eng: Eng, p: Probe, thorough: bool) {
+fn group(s: &mut Sink, kind: VmKind, eng: Eng, p: Probe, thorough: bool, reload: u8) {
+    // reload > 0: the VM object held a decoy program before (vm::set_reload)
+    let _reload = crate::isaeng::ReloadGuard::new(reload);
     let (a, b) = match kind {
         VmKind::Fixed(a, b) => (a, b),
         _ => (0, 8),
@@ -235,7 +250,7 @@ fn group(s: &mut Sink, kind: VmKind, eng: Eng, p: Probe, thorough: bool) {
     let (a2, b2) = (b, a); // second offset pair for set_program: swapped
     let prog2 = isa::enc(&probe_prog(p, a2, b2));
     let class = format!("{}-{:?}", match kind { VmKind::Raw => "raw", VmKind::NoData => "nodata", VmKind::Mbuff => "mbuff", VmKind::Fixed(..) => "fixed" }, p).replace(' ', "");
-    let rp = json!({"kind":"ctx","vm":vm::kind_name(kind),"eng":eng.name(),"probe":format!("{p:?}")});
+    let rp = json!({"kind":"ctx","vm":vm::kind_name(kind),"eng":eng.name(),"probe":format!("{p:?}"),"reload":reload});
     let mut vmx = match AnyVm::new(kind, Some(&prog)) {
         Ok(v) => v,
         Err(e) => {
@@ -363,6 +378,7 @@ pub fn run(s: &mut Sink) {
         "packets": "prefixes of lengths 0,1,7,8,64 of buffer A and 8,64 of buffer B (same start address, different lengths; different addresses), a 69632-byte packet",
         "sequences": if thorough {"all 512 ordered triples of packets on one VM"} else {"a third of the ordered triples plus all with a repeated packet"},
         "set_program": "fixed VM: offsets swapped by set_program between executions, then swapped back",
+        "vm_history": "raw, nodata, mbuff and two fixed VMs also on VM objects that held another program before (two decoy programs)",
     }));
     s.meta.insert("bound".into(), json!("sequences of 3 executions per VM; one set_program round trip"));
     s.meta.insert("rule".into(), json!("state = (VM kind, offsets, engine, probe, packet triple); each execution is a transition compared with the value computed from the caller's buffer addresses; distinct by construction"));
@@ -382,10 +398,14 @@ pub fn run(s: &mut Sink) {
                 if matches!(p, Probe::LdAbsAfter2(..)) && !matches!(kind, VmKind::Raw | VmKind::Mbuff | VmKind::Fixed(0x40, 0x50)) {
                     continue;
                 }
-                let rp = json!({"kind":"ctx","vm":vm::kind_name(*kind),"eng":eng.name(),"probe":format!("{p:?}")});
-                s.mark(idx, &format!("{}/ctx", eng.name()), &rp);
-                let k = *kind;
-                crate::isaeng::run_group(s, eng, &format!("ctx-{p:?}").replace(' ', ""), &rp, move |cs| group(cs, k, eng, p, thorough));
+                let reloads: &[u8] = if matches!(kind, VmKind::Raw | VmKind::NoData | VmKind::Mbuff | VmKind::Fixed(0x40, 0x50) | VmKind::Fixed(8, 0)) { &[0, 1, 3] } else { &[0] };
+                for reload in reloads {
+                    let reload = *reload;
+                    let rp = json!({"kind":"ctx","vm":vm::kind_name(*kind),"eng":eng.name(),"probe":format!("{p:?}"),"reload":reload});
+                    s.mark(idx, &format!("{}/ctx", eng.name()), &rp);
+                    let k = *kind;
+                    crate::isaeng::run_group(s, eng, &format!("ctx-{p:?}").replace(' ', ""), &rp, move |cs| group(cs, k, eng, p, thorough, reload));
+                }
             }
         }
     }
@@ -399,7 +419,8 @@ pub fn replay(v: &Value) -> Vec<String> {
     let p = *probes().iter().find(|p| format!("{p:?}") == pname).unwrap();
     let mut s = Sink::new("replay", Tier::Thorough, 0, 1, None, None, 3600);
     let rp = v.clone();
-    crate::isaeng::run_group(&mut s, eng, "ctx", &rp, move |cs| group(cs, kind, eng, p, true));
+    let reload = v["reload"].as_u64().unwrap_or(0) as u8;
+    crate::isaeng::run_group(&mut s, eng, "ctx", &rp, move |cs| group(cs, kind, eng, p, true, reload));
     let r = s.finish();
     r["violations"].as_array().unwrap().iter().map(|x| format!("{}: {}", x["sig"].as_str().unwrap(), x["detail"].as_str().unwrap())).collect()
 }
